@@ -1,12 +1,229 @@
 import HcipyVerif.Model.Proto
+import HcipyVerif.Model.ModeBasis
+import HcipyVerif.Model.Mirror
 
-/-! Line-protocol front end of the C14 model (stub: not built yet). -/
+/-!
+Line-protocol front end of the C14 model.
+
+Scalars are Gaussian rationals `re` or `re:im` (each part `num/den`); vectors `[a,b,c]`;
+matrices `row;row;…` (`-` = no rows).  Bases live in named registers.
+
+```
+reset
+new NAME dense NPIX NMODES ROWS
+new NAME csc NPIX NMODES INDPTR INDICES DATA
+new NAME fields NPIX MODES               (MODES: one vector per mode)
+new NAME rows NPIX IDXLISTS VALLISTS      (one sparse row vector per mode)
+desc NAME                                 -> ok KIND NPIX NMODES ROWS
+lc NAME COEFFS                            -> ok VECTOR
+get NAME DST new|old int K | slice A B C | list [..] | mask [0,1,..]
+                                          -> ok mode VECTOR | ok basis KIND NPIX NMODES ROWS | err index|value
+add A B DST | extend A B DST | append A VEC DST | tosparse A DST | todense A DST
+                                          -> ok KIND NPIX NMODES ROWS | err value
+nnz NAME                                  -> ok N   (stored entries; dense: npix*nmodes)
+lstsq NAME VECTOR                         -> ok VECTOR | err rank
+mirror new NPIX NMODES ROWS | assign V | alias H | edit H I X | flatten | random V
+       | setif NPIX NMODES ROWS | read    -> ok … (read: ok VECTOR hit|miss)
+```
+-/
 namespace HcipyVerif.Driver.C14
+open HcipyVerif.Proto HcipyVerif.ModeBasis HcipyVerif.Mirror
 
 structure St where
-  dummy : Unit := ()
+  regs : List (String × Basis CRat) := []
+  mirror : Option (Mirror CRat) := none
+
+def parseC? (s : String) : Option CRat :=
+  match s.splitOn ":" with
+  | [a] => (parseRat? a).map fun r => ⟨r, 0⟩
+  | [a, b] => do let r ← parseRat? a; let i ← parseRat? b; pure ⟨r, i⟩
+  | _ => none
+
+def showC (c : CRat) : String :=
+  if c.im = 0 then showRat c.re else s!"{showRat c.re}:{showRat c.im}"
+
+def parseVec? := parseListWith? parseC?
+def showVec := showList showC
+
+def parseLists? {α} (p : String → Option (List α)) (s : String) : Option (List (List α)) :=
+  if s == "-" then some [] else (s.splitOn ";").mapM p
+
+def parseMat? := parseLists? parseVec?
+
+def showMat (m : List (List CRat)) : String :=
+  if m.isEmpty then "-" else ";".intercalate (m.map showVec)
+
+def desc (b : Basis CRat) : String :=
+  s!"{if b.isSparse then "sparse" else "dense"} {b.npix} {b.nmodes} {showMat (toDense b)}"
+
+def lookup (st : St) (n : String) : Option (Basis CRat) := (st.regs.find? (·.1 == n)).map (·.2)
+
+def store (st : St) (n : String) (b : Basis CRat) : St :=
+  { st with regs := (n, b) :: st.regs.filter (·.1 != n) }
+
+def parseOptInt? (s : String) : Option (Option Int) :=
+  if s == "-" then some none else (parseInt? s).map some
+
+def parseIndex? : List String → Option Index
+  | ["int", k] => (parseInt? k).map Index.int
+  | ["slice", a, b, c] => do
+    let a ← parseOptInt? a; let b ← parseOptInt? b; let c ← parseOptInt? c
+    pure (Index.slice a b c)
+  | ["list", l] => (parseIntList? l).map Index.list
+  | ["mask", l] => do
+    let l ← parseNatList? l
+    if l.all (fun x => x ≤ 1) then pure (Index.mask (l.map (· == 1))) else none
+  | _ => none
+
+def showErr : IdxErr → String
+  | .index => "err index"
+  | .value => "err value"
+
+def wellShaped (npix nmodes : Nat) (rows : List (List CRat)) : Bool :=
+  rows.length == npix && rows.all (·.length == nmodes)
+
+def nnz : Basis CRat → Nat
+  | .dense n m _ => n * m
+  | .sparse _ _ cols => (cols.map List.length).sum
+
+def mirrorStep (st : St) : List String → St × String
+  | ["new", npix, nmodes, rows] =>
+    match parseNat? npix, parseNat? nmodes, parseMat? rows with
+    | some n, some m, some r =>
+      if wellShaped n m r then ({ st with mirror := some (Mirror.init r m) }, "ok") else (st, "bad-op")
+    | _, _, _ => (st, "bad-op")
+  | args =>
+    match st.mirror with
+    | none => (st, "bad-op")
+    | some mir =>
+      let fin (op : Op CRat) (out : Mirror CRat → String) : St × String :=
+        let r := Mirror.step mir op
+        ({ st with mirror := some r.1 }, out r.1)
+      match args with
+      | ["assign", v] =>
+        match parseVec? v with
+        | some v => fin (.assign v) fun m => s!"ok {m.cur}"
+        | none => (st, "bad-op")
+      | ["random", v] =>
+        match parseVec? v with
+        | some v => fin (.random v) fun m => s!"ok {m.cur}"
+        | none => (st, "bad-op")
+      | ["alias", h] =>
+        match parseNat? h with
+        | some h => if h < mir.heap.length then fin (.reassign h) fun m => s!"ok {m.cur}" else (st, "bad-op")
+        | none => (st, "bad-op")
+      | ["edit", h, i, x] =>
+        match parseNat? h, parseNat? i, parseC? x with
+        | some h, some i, some x =>
+          if h < mir.heap.length && i < (mir.heap.getD h []).length then fin (.edit h i x) fun _ => "ok"
+          else (st, "bad-op")
+        | _, _, _ => (st, "bad-op")
+      | ["flatten"] => fin .flatten fun m => s!"ok {m.cur}"
+      | ["setif", npix, nmodes, rows] =>
+        match parseNat? npix, parseNat? nmodes, parseMat? rows with
+        | some n, some m, some r =>
+          if wellShaped n m r then fin (.setInfl r m) fun _ => "ok" else (st, "bad-op")
+        | _, _, _ => (st, "bad-op")
+      | ["read"] =>
+        let hit := decide (mir.cached = some (acts mir))
+        let r := Mirror.read mir
+        ({ st with mirror := some r.1 }, s!"ok {showVec r.2} {if hit then "hit" else "miss"}")
+      | ["acts"] => (st, s!"ok {showVec (acts mir)}")
+      | _ => (st, "bad-op")
 
 def step (st : St) : List String → St × String
+  | ["reset"] => ({}, "ok")
+  | ["new", name, "dense", npix, nmodes, rows] =>
+    match parseNat? npix, parseNat? nmodes, parseMat? rows with
+    | some n, some m, some r =>
+      if wellShaped n m r then
+        let b := fromDense n m r; (store st name b, "ok " ++ desc b)
+      else (st, "bad-op")
+    | _, _, _ => (st, "bad-op")
+  | ["new", name, "csc", npix, nmodes, indptr, indices, data] =>
+    match parseNat? npix, parseNat? nmodes, parseNatList? indptr, parseNatList? indices, parseVec? data with
+    | some n, some m, some ip, some ix, some d =>
+      if ip.length == m + 1 && ix.length == d.length && ix.all (· < n) && ip.getLast? == some d.length then
+        let b := fromCSC n m ip ix d; (store st name b, "ok " ++ desc b)
+      else (st, "bad-op")
+    | _, _, _, _, _ => (st, "bad-op")
+  | ["new", name, "fields", npix, modes] =>
+    match parseNat? npix, parseMat? modes with
+    | some n, some ms =>
+      if ms.all (·.length == n) && !ms.isEmpty then
+        let b := fromFields n ms; (store st name b, "ok " ++ desc b)
+      else (st, "bad-op")
+    | _, _ => (st, "bad-op")
+  | ["new", name, "rows", npix, idx, vals] =>
+    match parseNat? npix, parseLists? parseNatList? idx, parseMat? vals with
+    | some n, some ix, some vs =>
+      if ix.length == vs.length && !ix.isEmpty &&
+          (List.zipWith (fun (a : List Nat) (b : List CRat) => a.length == b.length && a.all (· < n)) ix vs).all id then
+        let b := fromSparseRows n (List.zipWith List.zip ix vs); (store st name b, "ok " ++ desc b)
+      else (st, "bad-op")
+    | _, _, _ => (st, "bad-op")
+  | ["desc", name] =>
+    match lookup st name with
+    | some b => (st, "ok " ++ desc b)
+    | none => (st, "bad-op")
+  | ["nnz", name] =>
+    match lookup st name with
+    | some b => (st, s!"ok {nnz b}")
+    | none => (st, "bad-op")
+  | ["lc", name, c] =>
+    match lookup st name, parseVec? c with
+    | some b, some c => if c.length == b.nmodes then (st, "ok " ++ showVec (linComb b c)) else (st, "bad-op")
+    | _, _ => (st, "bad-op")
+  | "get" :: name :: dst :: which :: ix =>
+    match lookup st name, parseIndex? ix with
+    | some b, some ix =>
+      if which != "new" && which != "old" then (st, "bad-op") else
+      match (if which == "old" then getItemOld b ix else getItem b ix) with
+      | .error e => (st, showErr e)
+      | .ok (.mode v) => (st, "ok mode " ++ showVec v)
+      | .ok (.basis r) => (store st dst r, "ok basis " ++ desc r)
+    | _, _ => (st, "bad-op")
+  | ["add", a, b, dst] =>
+    match lookup st a, lookup st b with
+    | some a, some b =>
+      match add a b with
+      | some r => (store st dst r, "ok " ++ desc r)
+      | none => (st, "err value")
+    | _, _ => (st, "bad-op")
+  | ["extend", a, b, dst] =>
+    match lookup st a, lookup st b with
+    | some a, some b =>
+      match extend a b with
+      | some r => (store st dst r, "ok " ++ desc r)
+      | none => (st, "err value")
+    | _, _ => (st, "bad-op")
+  | ["append", a, v, dst] =>
+    match lookup st a, parseVec? v with
+    | some a, some v =>
+      match append a v with
+      | some r => (store st dst r, "ok " ++ desc r)
+      | none => (st, "err value")
+    | _, _ => (st, "bad-op")
+  | ["tosparse", a, dst] =>
+    match lookup st a with
+    | some a => let r := sparsify a; (store st dst r, "ok " ++ desc r)
+    | none => (st, "bad-op")
+  | ["todense", a, dst] =>
+    match lookup st a with
+    | some a => let r := densify a; (store st dst r, "ok " ++ desc r)
+    | none => (st, "bad-op")
+  | ["lstsq", name, y] =>
+    match lookup st name, parseVec? y with
+    | some b, some y =>
+      if y.length != b.npix then (st, "bad-op") else
+      match lstsq CRat.conj b y with
+      | none => (st, "err rank")
+      | some x =>
+        -- self-certificate: the normal equations hold exactly
+        if (normalResidual CRat.conj b x y).all (· == 0) && x.length == b.nmodes then (st, "ok " ++ showVec x)
+        else (st, "err internal")
+    | _, _ => (st, "bad-op")
+  | "mirror" :: rest => mirrorStep st rest
   | _ => (st, "bad-op")
 
 end HcipyVerif.Driver.C14
